@@ -745,32 +745,94 @@ def cell_record_constructor(ctx, F, rule, sfx):
     ctx.check(rule, 'cell-record-fields%s' % sfx, not bad, bad or 'loc, centroid, volume, safety_radius, idx stored as given', 'VoronoiCell::init(loc, centroid, volume, safety_radius, idx) stores argument k in field k', where(b), key_extra='cell-init')
 
 
-def early_exits(ip, marker='ConvexCellDecomposition'):
-    """Exits of the loops over the stream whose `next` mentions `marker`, taken WITH an item in hand (a `break` / `return` inside the loop body):
-    -> list of texts of the conditions.  A loop that is left only when `next()` is None gives []."""
+def early_exits(ip, marker='ConvexCellDecomposition', body=None):
+    """Exits of the loops over an iterator (the one whose `next` mentions `marker`; any, when marker is None), taken WITH an item in hand (a `break`
+    / `return` inside the loop body): -> list of texts of the conditions.  A loop that is left only when its own `next()` is None gives [].
+    The loop's own stream is the `next()` that is Some on every back edge (`loop { .. }` has none and is skipped: its exits are its own business)."""
     import itertools
     from .. import dtab
     out = []
 
-    def val(leaf):
+    def next_leaf(leaf):
         d = dtab.is_discr_eq(leaf)
-        if d is not None and marker in repr(d[0]) and '::next(' in repr(d[0]):
-            return (d[1] == 1) == d[2]
+        if d is not None and (marker is None or marker in repr(d[0])) and '::next(' in repr(d[0]):
+            return repr(d[0]), (d[1] == 1) == d[2]
         return None
     for L in ip.loops:
         exits = L.get('exits') or []
-        if not any(marker in repr(c) and '::next(' in repr(c) for _sk, g in exits for c in g) and not any(marker in repr(c) for g, _v in L.get('back') or [] for c in g):
+        if body is not None and L.get('body') is not body:
             continue
-        for _sk, g in exits:
-            leaves_ = {}
+        own = None
+        for g, _v in L.get('back') or []:
+            some = set()
             for c in g:
-                dtab.b_leaves(c, leaves_)
-            others = [k_ for k_, lf in leaves_.items() if val(lf) is None]
-            if len(others) > 10:
-                raise AnalysisIncomplete('%d conditions on a loop exit' % len(others))
-            for bits in itertools.product((False, True), repeat=len(others)):
-                env_ = dict(zip(others, bits))
-                if dtab.conj(g, lambda lf: val(lf) if val(lf) is not None else env_[lf.key()]):
-                    out.append(' and '.join(repr(c)[-90:] for c in g if val(c) is None)[:240] or 'unconditionally')
-                    break
+                if c.op in ('cmp', 'atom'):          # a top-level conjunct
+                    nl = next_leaf(c)
+                    if nl is not None and nl[1]:
+                        some.add(nl[0])
+            own = some if own is None else own & some
+        if not own:
+            continue
+
+        def val(leaf):
+            nl = next_leaf(leaf)
+            if nl is not None and nl[0] in own:
+                return nl[1]
+            return None
+        def conjuncts(c):
+            if c.op == 'and':
+                return conjuncts(c.args[0]) + conjuncts(c.args[1])
+            return [c]
+        for _sk, g in exits:
+            cs = [x for c in g for x in conjuncts(c)]
+            # legitimate: the exit is taken under "own next() is None" (a top-level conjunct); anything else leaves the loop with an item in hand
+            if any(val(c) is False for c in cs):
+                continue
+            # the `unreachable` arm of the match on the Option (neither None nor Some) is no exit
+            excl = {}
+            for c in cs:
+                d = dtab.is_discr_eq(c)
+                if d is not None and not d[2]:
+                    excl.setdefault(repr(d[0]), set()).add(d[1])
+                elif c.op == 'cmp' and c.args[0] == '!=':
+                    # the discriminant of a conditionally built Option (a gated scalar, not a single `discr` atom)
+                    for x_, y_ in ((c.args[1], c.args[2]), (c.args[2], c.args[1])):
+                        if isinstance(y_, RF) and y_.is_const() and isinstance(x_, RF) and 'discr(' in repr(x_):
+                            excl.setdefault(repr(x_), set()).add(int(y_.const_value()))
+            if any({0, 1} <= v_ for v_ in excl.values()):
+                continue
+            out.append(' and '.join(repr(c)[-90:] for c in cs if val(c) is None)[:240] or 'unconditionally')
     return out
+
+
+def foreign_conditions(ip, allowed, bodies=None):
+    """Conditions (leaves of event guards, loop back edges and loop exits) that consult an uninterpreted call outside `allowed` (regex on the call's
+    name): the decisions of the evaluated code depend on nothing but the quantities the rule knows about.  -> sorted texts."""
+    import re as _re
+    from .. import dtab
+    rx = _re.compile(allowed)
+    leaves = {}
+    for e in ip.events:
+        if bodies is None or e.body in bodies:
+            for g in e.guard:
+                dtab.b_leaves(g, leaves)
+    for L in ip.loops:
+        if bodies is None or L.get('body') in bodies:
+            for g, _v in L.get('back') or []:
+                for c in g:
+                    dtab.b_leaves(c, leaves)
+                # a conditional update without any call (`if c { r += 1 }`) shows only in the value carried round the loop
+                for x_ in (_v or {}).values():
+                    try:
+                        dtab.b_leaves(x_, leaves)
+                    except (TypeError, AnalysisIncomplete):
+                        pass
+            for _sk, g in L.get('exits') or []:
+                for c in g:
+                    dtab.b_leaves(c, leaves)
+    out = set()
+    for lf in leaves.values():
+        for a in I.atoms_deep(lf).values():
+            if a.kind == 'app' and str(a.name).startswith(('call:', 'mut:')) and not rx.search(str(a.name)):
+                out.add(str(a.name)[:90])
+    return sorted(out)
